@@ -41,6 +41,11 @@ func (p Proof) Marshal() string {
 func (p *Proof) Unmarshal(data []byte) error {
 	const delim = "\n"
 	s := string(data)
+	if len(s) == 0 {
+		// The empty proof is written as the empty string (see Marshal).
+		(*p) = Proof{}
+		return nil
+	}
 	if !strings.HasSuffix(s, delim) {
 		return errors.New("data should have trailing newline on last hash too")
 	}
